@@ -189,3 +189,28 @@ def c18(res: CheckResult) -> None:
              list(DF.fam_foreign_hier(res.tier, rng)), ic, verdicts=True, rng=rng)
     def_unit(res, "registration hook: classes in modules with assorted names, with and without the metaclass",
              list(DF.fam_modules(res.tier, rng)), ic, rng=rng)
+
+
+@check("C05")
+def c05(res: CheckResult) -> None:
+    from icv import bindcheck as B
+    from icv.result import MachineryError
+    ic = C.load_icontract()
+    res.assumptions = COMMON_ASSUMPTIONS + [
+        "what a contract receives for the variadic parameter's OWN name (args / kwargs) is a don't-care: the property "
+        "speaks of non-variadic parameters and two baseline tests pin the legacy value there",
+        "the specification's Bind is cross-checked against CPython's binding of the very same call on every state"]
+    mp, mpos = (4, 5) if res.tier == "quick" else (5, 6)
+    r, vectors = B.model_check_bind(mp, mpos)
+    if not r.ok:
+        raise MachineryError("ICBind: the switch-off specification fails BindAgree: {}".format(r.violated or r.error))
+    res.states += r.distinct
+    res.transitions += r.states
+    stats = B.replay_vectors(res, vectors, ic)
+    if stats["bindable"] < 1000 and not res.violations:
+        raise MachineryError("ICBind: vacuous ({} bindable calls)".format(stats["bindable"]))
+    res.traces += stats["calls"]
+    res.evaluations += stats["values_compared"]
+    res.samples += vectors[1000:1003]
+    res.coverage_extra["exhaustive"] = True
+    res.add_unit("signatures x call shapes", max_params=mp, max_positionals=mpos, **stats)
